@@ -393,6 +393,7 @@ pub fn run(ctx: &Ctx) -> i32 {
         st.count("discriminating_input_flag_sets");
         check_case(ctx, st, &tmp, i, &disc, settings[i]);
     });
+    if std::env::var("VERIF_TIMING").is_ok() { eprintln!("[timing] c12.rs block 1: {:.1}s", ctx.run.started.elapsed().as_secs_f64()); }
     // random subsets of flags on the discriminating input
     let n = if ctx.thorough { 3000 } else { 150 };
     par_for(&ctx.run, n, |i, st| {
@@ -405,6 +406,7 @@ pub fn run(ctx: &Ctx) -> i32 {
         st.count("discriminating_input_random_flag_sets");
         check_case(ctx, st, &tmp, 1000 + i, &disc, s);
     });
+    if std::env::var("VERIF_TIMING").is_ok() { eprintln!("[timing] c12.rs block 2: {:.1}s", ctx.run.started.elapsed().as_secs_f64()); }
     // random argument-safe inputs x random flags
     let n = if ctx.thorough { 6000 } else { 300 };
     let names = ["ab", "meta", "mixed", "ws", "graph", "astral", "classes", "case", "sgr"];
@@ -423,6 +425,7 @@ pub fn run(ctx: &Ctx) -> i32 {
         st.count(&format!("random_{name}"));
         check_case(ctx, st, &tmp, 100_000 + i, &tcs, s);
     });
+    if std::env::var("VERIF_TIMING").is_ok() { eprintln!("[timing] c12.rs block 3: {:.1}s", ctx.run.started.elapsed().as_secs_f64()); }
     // every blank / ignorable character as the very first and very last character of the input
     {
         let ws = gen::alphabet("ws");
@@ -439,26 +442,31 @@ pub fn run(ctx: &Ctx) -> i32 {
             st.count("ignorable_first_last_character_cases");
             check_case(ctx, st, &tmp, 300_000 + i, &cases[i], Settings::new(0));
         });
+        if std::env::var("VERIF_TIMING").is_ok() { eprintln!("[timing] c12.rs inner 101: {:.1}s", ctx.run.started.elapsed().as_secs_f64()); }
         // results with hundreds of class tokens (larger than the regex crate's default size limit)
         let heavy: Vec<(Vec<String>, u32)> = vec![
-            (vec!["x".repeat(300)], WORD),
-            (vec!["x".repeat(260), "y".repeat(255)], WORD | REP),
-            (vec!["-".repeat(300)], NWORD),
-            (vec!["7".repeat(2400)], DIGIT),
-            (vec!["ab ".repeat(120)], WORD | SPACE),
+            (vec!["x".repeat(230)], WORD),
+            (vec!["x".repeat(120), "y".repeat(118)], WORD | REP),
+            (vec!["-".repeat(250)], NWORD),
         ];
+        let mut heavy = heavy;
+        if ctx.thorough {
+            heavy.push((vec!["7".repeat(2400)], DIGIT));
+            heavy.push((vec!["ab ".repeat(120)], WORD | SPACE));
+        }
         par_for(&ctx.run, heavy.len(), |i, st| {
             st.count("class_heavy_large_results");
             check_case(ctx, st, &tmp, 400_000 + i, &heavy[i].0, Settings::new(heavy[i].1));
         });
+        if std::env::var("VERIF_TIMING").is_ok() { eprintln!("[timing] c12.rs inner 102: {:.1}s", ctx.run.started.elapsed().as_secs_f64()); }
     }
     // large inputs through every channel: many lines / long lines / sizes around I/O buffer boundaries
     {
         let mut big: Vec<Vec<String>> = vec![];
         let mut rng = Rng::new(seed, 0x123_0000);
         let ab = gen::alphabet("abc");
-        big.push((0..1000).map(|_| (0..1 + rng.below(3)).map(|_| rng.pick(&ab).clone()).collect::<String>()).collect());
-        big.push((0..2).map(|_| (0..400).map(|_| rng.pick(&ab).clone()).collect::<String>()).collect());
+        big.push((0..600).map(|_| (0..1 + rng.below(3)).map(|_| rng.pick(&ab).clone()).collect::<String>()).collect());
+        big.push((0..2).map(|_| (0..250).map(|_| rng.pick(&ab).clone()).collect::<String>()).collect());
         for target in [8192usize, 8193, 65536] {
             // total file size exactly around `target` bytes: lines of 63 characters + newline
             let lines = target / 64;
@@ -473,6 +481,7 @@ pub fn run(ctx: &Ctx) -> i32 {
             st.count("large_channel_inputs");
             check_case(ctx, st, &tmp, 200_000 + i, &big[i], Settings::new(if i % 2 == 0 { 0 } else { REP }));
         });
+        if std::env::var("VERIF_TIMING").is_ok() { eprintln!("[timing] c12.rs inner 103: {:.1}s", ctx.run.started.elapsed().as_secs_f64()); }
     }
     // RegExpBuilder::from_file vs from(lines), in process (no spawn): many line-safe inputs incl. lines
     // starting / ending with blanks, BOM-like and other ignorable characters
@@ -514,6 +523,7 @@ pub fn run(ctx: &Ctx) -> i32 {
             _ => st.inconclusive("library panicked (C07's concern)"),
         }
     });
+    if std::env::var("VERIF_TIMING").is_ok() { eprintln!("[timing] c12.rs block 4: {:.1}s", ctx.run.started.elapsed().as_secs_f64()); }
     // error inputs
     {
         let mut st = Stats::new();
